@@ -1,0 +1,78 @@
+//go:build verif
+
+// Contracts for the in-flight bookkeeping of channel.go (C02, C04, C08, C13), checked by /verif/cmd/nsqvc.
+// Comment-only file.
+
+package nsqd
+
+//@ benign (*github.com/nsqio/nsq/nsqd.NSQD).logf
+//@ immutable Channel.nsqd, Channel.name, Channel.topicName, Channel.ephemeral
+
+// inFlightMutex protects the in-flight map, the in-flight heap (its slice, its backing array and the
+// members' back-index). Lock invariant: the heap is well formed and the map is there.
+// Guarantee (for an arbitrary message gm): a critical section that takes gm out of the heap sets
+// its back-index to -1; the back-index of a message that was not in the heap is left alone.
+//@ lock Channel.inFlightMutex guards inFlightMessages, inFlightPQ, mapsof(map[MessageID]*Message)
+//@   invariant[map] self.inFlightMessages != nil
+//@   invariant[values] forall id MessageID :: {self.inFlightMessages[id]} has(self.inFlightMessages, id) ==> self.inFlightMessages[id] != nil
+//@   invariant[heap] wfPQ(self.inFlightPQ)
+//@   ghostparam gm *Message
+//@   guarantee[removed-means-unindexed] old(member(self.inFlightPQ, len(self.inFlightPQ), gm)) && !member(self.inFlightPQ, len(self.inFlightPQ), gm) ==> gm.index == -1
+//@   guarantee[outsiders-untouched] !old(member(self.inFlightPQ, len(self.inFlightPQ), gm)) && !member(self.inFlightPQ, len(self.inFlightPQ), gm) ==> gm.index == old(gm.index)
+//@   assume cap(self.inFlightPQ) < 4611686018427387903
+
+//@ pred inFlight(c *Channel, id MessageID) := has(c.inFlightMessages, id)
+
+// The single linearisation point of FIN / REQ / TOUCH / timeout: exactly one caller can obtain a
+// given in-flight message, and only its owner; a refused call changes nothing.
+//@ func (c *Channel) popInFlightMessage(clientID int64, id MessageID) (*Message, error)
+//@   props C02 C08 C13
+//@   ghostparam gid MessageID
+//@   requires c != nil
+//@   ensures[absent] !atlock(inFlight(c, id)) ==> result1 != nil && result0 == nil
+//@   ensures[not-owner] atlock(inFlight(c, id)) && atlock(c.inFlightMessages[id].clientID) != clientID ==> result1 != nil && result0 == nil
+//@   ensures[owner] atlock(inFlight(c, id)) && atlock(c.inFlightMessages[id].clientID) == clientID ==> result1 == nil && result0 == atlock(c.inFlightMessages[id]) && !atunlock(inFlight(c, id))
+//@   ensures[refused-changes-nothing] result1 != nil ==> (atunlock(inFlight(c, gid)) <==> atlock(inFlight(c, gid))) && atunlock(c.inFlightMessages[gid]) == atlock(c.inFlightMessages[gid])
+//@   ensures[others] gid != id ==> (atunlock(inFlight(c, gid)) <==> atlock(inFlight(c, gid))) && atunlock(c.inFlightMessages[gid]) == atlock(c.inFlightMessages[gid])
+//@   ensures[len] atunlock(len(c.inFlightMessages)) == atlock(len(c.inFlightMessages)) - (result1 == nil ? 1 : 0)
+//@   modifies c.inFlightMessages, c.inFlightPQ, mapstore(map[MessageID]*Message)
+
+//@ func (c *Channel) pushInFlightMessage(msg *Message) error
+//@   props C02 C08 C13
+//@   ghostparam gid MessageID
+//@   requires c != nil && msg != nil
+//@   ensures[duplicate] atlock(inFlight(c, msg.ID)) ==> result != nil && atunlock(c.inFlightMessages[msg.ID]) == atlock(c.inFlightMessages[msg.ID])
+//@   ensures[added] !atlock(inFlight(c, msg.ID)) ==> result == nil && atunlock(inFlight(c, msg.ID)) && atunlock(c.inFlightMessages[msg.ID]) == msg
+//@   ensures[others] gid != msg.ID ==> (atunlock(inFlight(c, gid)) <==> atlock(inFlight(c, gid))) && atunlock(c.inFlightMessages[gid]) == atlock(c.inFlightMessages[gid])
+//@   ensures[len] atunlock(len(c.inFlightMessages)) == atlock(len(c.inFlightMessages)) + (result == nil ? 1 : 0)
+//@   modifies c.inFlightMessages, c.inFlightPQ, mapstore(map[MessageID]*Message)
+
+// The heap half of the bookkeeping.
+//@ func (c *Channel) addToInFlightPQ(msg *Message)
+//@   props C02 C08
+//@   requires c != nil && msg != nil
+//@   lockassume forall k int :: {c.inFlightPQ[k]} 0 <= k && k < len(c.inFlightPQ) ==> c.inFlightPQ[k] != msg
+//@   modifies c.inFlightMessages, c.inFlightPQ, mapstore(map[MessageID]*Message), elems(*Message), Message.index, deref(inFlightPqueue)
+
+//@ func (c *Channel) removeFromInFlightPQ(msg *Message)
+//@   props C02 C08
+//@   requires c != nil && msg != nil
+//@   lockassume msg.index == -1 || member(c.inFlightPQ, len(c.inFlightPQ), msg)
+//@   ensures[out] atunlock(msg.index) == -1
+//@   modifies c.inFlightMessages, c.inFlightPQ, mapstore(map[MessageID]*Message), elems(*Message), Message.index, deref(inFlightPqueue)
+
+// Options are stored once at start-up and swapped atomically afterwards; the pointer is never nil.
+//@ func (n *NSQD) getOpts() *Options
+//@   trusted
+//@   ensures result != nil
+
+// initPQ (start-up and Empty) replaces both queues. Under inFlightMutex it must honour the mutex's
+// guarantee: a message taken out of the heap gets back-index -1.
+//@ func (c *Channel) initPQ()
+//@   props C08 C02
+//@   requires c != nil && c.nsqd != nil
+//@   loop 0
+//@     invariant atlock(bidx(c.inFlightPQ, len(c.inFlightPQ))) && c.inFlightPQ == atlock(c.inFlightPQ)
+//@     invariant[elems-kept] forall k int :: {c.inFlightPQ[k]} 0 <= k && k < len(c.inFlightPQ) ==> c.inFlightPQ[k] == atlock(c.inFlightPQ[k])
+//@     invariant[done] forall k int :: {c.inFlightPQ[k]} 0 <= k && k <= rangeindex && k < len(c.inFlightPQ) ==> c.inFlightPQ[k].index == -1
+//@     invariant[outsiders] !atlock(member(c.inFlightPQ, len(c.inFlightPQ), gm)) ==> gm.index == atlock(gm.index)
